@@ -110,9 +110,12 @@ def weights(draw, count, force=None):
     mode = force or draw(st.sampled_from(["varied", "varied", "const", "unit"]))
     if mode == "unit":
         return [1.0] * count
+    # all positive weights are valid: once in a while the whole vector is scaled exactly by 2^-30 (weights of order 1e-9,
+    # far below the library's 10e-8 tolerances; the shape does not depend on a common factor)
+    sc = 2.0 ** draw(st.sampled_from([0, 0, 0, 0, 0, 0, 0, -30]))
     if mode == "const":
-        return [draw(st.sampled_from(WEIGHTS))] * count
-    return draw(st.lists(st.sampled_from(WEIGHTS), min_size=count, max_size=count))
+        return [draw(st.sampled_from(WEIGHTS)) * sc] * count
+    return [w * sc for w in draw(st.lists(st.sampled_from(WEIGHTS), min_size=count, max_size=count))]
 
 
 @st.composite
